@@ -69,7 +69,7 @@ def placements(seed, d, tier):
     pts = A.jl_points(seed, 3, d, box, tag=f"C05_{d}")
     idx = SITES[d][: (7 if tier == "thorough" else 6)]
     out = []
-    for n in range(3, len(idx) + 1):
+    for n in range(2, len(idx) + 1):
         for sub in itertools.combinations(idx, n):
             out.append(("jl", [pts[i] for i in sub]))
     cl = (np.array(A.generic_points(seed, 5, d, tag=f"C05cl{d}")) * 1.5 + 3.0).tolist()
@@ -77,6 +77,15 @@ def placements(seed, d, tier):
     gas = (np.array(A.generic_points(seed, 6, d, tag=f"C05gas{d}")) * np.array(box)).tolist()
     out.append(("gas", gas))
     return out
+
+
+def large_placement(seed, d):
+    """More than 16 particles (numpy's partition stops being a full sort): 25 (2D, 5x5) / 27 (3D, 3x3x3) jittered sites."""
+    box = [8.0, 9.0, 10.0][:d]
+    return A.jl_points(seed, 5 if d == 2 else 3, d, box, tag=f"C05L{d}")
+
+
+LARGE_GEOMS = {2: [("orth", [1, 1]), ("tri+", [1, 1]), ("orth", [1, 0])], 3: [("orth", [1, 1, 1]), ("tri-", [1, 1, 1]), ("tri+", [0, 1, 1])]}
 
 
 def dyadic_placements(d, tier):
@@ -119,6 +128,11 @@ def gen_nnearest(tier, seed):
                         for N in range(1, len(pts)):
                             yield {"kind": "nn", "slice": name, "d": d, "cell": cell, "H": H.tolist(), "ppp": mask,
                                    "frames": frames, "N": N}
+        big = large_placement(seed, d)
+        for cell, mask in LARGE_GEOMS[d]:
+            for N in ((1, 6, 12, len(big) - 1) if tier == "quick" else range(1, len(big))):
+                yield {"kind": "nn", "slice": "large", "d": d, "cell": cell, "H": cell_for(d, cell).tolist(), "ppp": mask,
+                       "frames": [big], "N": N}
         # dyadic lattice: many exactly equal distances - any valid choice among equidistant candidates is accepted
         dp = dyadic_placements(d, tier)
         for cell in ("orth", "tri"):
@@ -146,6 +160,12 @@ def gen_cutoff(tier, seed):
                         for rc in (rcs if F == 1 else rcs[1:-1:3]):
                             yield {"kind": "cut", "slice": name, "d": d, "cell": cell, "H": H.tolist(), "ppp": mask,
                                    "frames": frames, "rc": rc}
+        big = large_placement(seed, d)
+        for cell, mask in LARGE_GEOMS[d]:
+            H = cell_for(d, cell)
+            rcs = NB.midpoint_cutoffs(NB.dist_table(big, H, mask))
+            for rc in rcs[:: (40 if tier == "quick" else 8)]:
+                yield {"kind": "cut", "slice": "large", "d": d, "cell": cell, "H": H.tolist(), "ppp": mask, "frames": [big], "rc": rc}
         dp = dyadic_placements(d, tier)
         for cell in ("orth", "tri"):
             H = dyadic_cell(d, cell)
@@ -592,18 +612,18 @@ def run_cursor(case):
 
 # ---------------------------------------------------------------------------------------------- registry
 def subs(tier, seed):
-    conf = ("all N-subsets (N=3..%d) of %d sites of a jittered 3^d lattice + cluster + gas, d in {2,3}, cells {orth, tri+, tri-}, "
-            "all periodicity masks, F=1 (F=3 on every 4th placement with the fully periodic mask)") % ((7, 7) if tier == "thorough" else (6, 6))
+    conf = ("all N-subsets (N=2..%d) of %d sites of a jittered 3^d lattice + cluster + gas, d in {2,3}, cells {orth, tri+, tri-}, "
+            "all periodicity masks, F=1 (F=3 on every 4th placement with the fully periodic mask); one 25 (2D) / 27 (3D) particle placement in 3 geometries") % ((7, 7) if tier == "thorough" else (6, 6))
     dy = ("; dyadic slice: all 3-,4-%s subsets of 9 (2D) / 8 (3D) lattice sites with coordinates in {0,1,6}, box 8, {orth, tilt 2}, all masks"
           % ("" if tier == "quick" else ",5-"))
     s = [
         Sub("C05.nnearest", gen_nnearest, run_calc,
             rule=conf + ", every N in 1..N_p-1 (top value = all other particles)" + dy + " with every N; non-trivial = some list non-empty",
-            bounds={"Np": [3, 7 if tier == "thorough" else 6], "N": "1..Np-1", "frames": [1, 3]}),
+            bounds={"Np": [2, 7 if tier == "thorough" else 6], "N": "1..Np-1", "frames": [1, 3]}),
         Sub("C05.cutoff", gen_cutoff, run_calc,
             rule=conf + ", r_cut = below / every mid-point between consecutive sorted pair distances / above (every coordination "
             "pattern incl. cn=0)" + dy + " with r_cut EQUAL to every distinct pair distance (bit-exact, boundary inclusive)",
-            bounds={"Np": [3, 7 if tier == "thorough" else 6], "rcut": "all mid-points + exact pair distances"}),
+            bounds={"Np": [2, 7 if tier == "thorough" else 6], "rcut": "all mid-points + exact pair distances"}),
         Sub("C05.cutoff_type", gen_cutoff_type, run_calc,
             rule="all surjective type maps of N_p particles onto K species x cutoff matrices over three levels (nobody / half / everybody): "
             + ("K=1, K=2 all 81 matrices (N_p=3,4), K=3 all matrices with <= 2 (N_p=3; 163) / <= 1 (N_p=4; 19) entries off the middle level"
